@@ -87,6 +87,8 @@ impl Prop for C03 {
             GenSpec::random("unsupported", tier.pick(900, 45_000)),
             // one record between 32 KiB and the record limit, as another writer may emit
             GenSpec::random("big-records", tier.pick(24, 600)),
+            // one long, mostly non-ASCII string (4 KiB..64 KiB) in each string-valued field
+            GenSpec::random("long-strings", tier.pick(160, 4_000)),
         ]
     }
     fn run_case(&self, cx: &mut Cx) {
@@ -109,6 +111,13 @@ impl Prop for C03 {
                 let via_file = cx.rng.bool();
                 self.check(cx, &ast, &EncOpts::default(), via_file, "one record of 32 KiB..64 KiB");
                 cx.sample(|| json!({"big_record": what}));
+            }
+            "long-strings" => {
+                let (ast, which) = long_string_lib(&mut cx.rng);
+                cx.count(&format!("long_string_in_{}", which));
+                let via_file = cx.rng.bool();
+                self.check(cx, &ast, &EncOpts::default(), via_file, "one long non-ASCII string");
+                cx.sample(|| json!({"long_string_field": which}));
             }
             "trailing" => {
                 let ast = rand_lib(&mut cx.rng, &cfg);
